@@ -7,6 +7,7 @@
   sense (`IsPacket`: starts 25 EB, carries its own length ≥ 8 little-endian at bytes 4..7).
 -/
 import Acra.Lemmas.Ch10File
+import Acra.Lemmas.Ch11Cksum
 namespace Acra.Props.C12
 open Acra.Py Acra.Model.Ch10File Acra.Lemmas.Ch10File Acra.Gen.Ch11 Acra
 
@@ -153,5 +154,86 @@ theorem write_other_raises (old : Bytes) (bs : List Bytes) (items : List Item) :
   induction bs with
   | nil => intro acc; simp [writeItems]
   | cons b bs ih => intro acc; simp [writeItems, ih (acc ++ b)]
+
+/-! ### objects with `data_checksum_size = k > 0` (outside `WFn` / `WFs`, hence outside `write_then_iterate`)
+
+  For such an object `pack` declares `k` bytes more than it emits (`C03.ch11_pack_shape_datacksum`), and the file reader
+  reads by the declared length.  So the clause "objects written are returned as the same byte strings" is FALSE for
+  them, for every `k > 0` — precisely: -/
+
+/-- the full statement would be `write_then_iterate` with `WFnK ∨ WFsK` in place of `WFn ∨ WFs`; it fails already for
+    one object: written alone (or last) it is NOT returned at all — the reader asks for `|b| + k` bytes, gets `|b|`, and
+    stops with nothing -/
+theorem datacksum_last_packet_lost (old : Bytes) (s : Acra.Model.Ch11.State)
+    (h : Acra.Lemmas.Ch11.WFnK s ∨ Acra.Lemmas.Ch11.WFsK s) (hs : s.syncpattern = SYNC_WORD)
+    (hk : 0 < s.data_checksum_size) :
+    ∃ b, (Acra.Model.Ch11.pack s).2 = .ok b ∧
+      writeAll old "wb" [Item.packed (Acra.Model.Ch11.pack s).2] = (b, .ok ()) ∧
+      iterate b = .ok ([], b.length + s.data_checksum_size) := by
+  have key : ∀ sec : Bytes, Acra.Lemmas.Ch11.totalK s sec.length + Spec.Ch11.fillLen (Acra.Lemmas.Ch11.totalK s sec.length) < 2 ^ 32 →
+      (Acra.Model.Ch11.pack s).2 = .ok (Acra.Lemmas.Ch11.bytesK s sec) →
+      ∃ b, (Acra.Model.Ch11.pack s).2 = .ok b ∧
+        writeAll old "wb" [Item.packed (Acra.Model.Ch11.pack s).2] = (b, .ok ()) ∧
+        iterate b = .ok ([], b.length + s.data_checksum_size) := by
+    intro sec hlt hp
+    exact ⟨_, hp, by rw [hp]; simp [writeAll, writeItems], iterate_none _ _ (next_bytesK_alone s sec hs hk hlt)⟩
+  rcases h with h | h
+  · have hfl := Acra.Lemmas.Ch11.fillLen_lt (Acra.Lemmas.Ch11.totalK s 0)
+    have := h.2.2.2.2.2.2.2.2.2
+    exact key [] (by simp only [Acra.Lemmas.Ch11.totalK, List.length_nil] at hfl ⊢; omega)
+      (by rw [Acra.Lemmas.Ch11.pack_nosecK s h])
+  · have hl : (Spec.Ch11.secHeader s.ptptime.seconds s.ptptime.nanoseconds).length = 12 := by
+      simp [Spec.Ch11.secHeader]
+    have hfl := Acra.Lemmas.Ch11.fillLen_lt (Acra.Lemmas.Ch11.totalK s 12)
+    have := h.2.2.2.2.2.2.2.2.2.2.2
+    exact key _ (by rw [hl]; simp only [Acra.Lemmas.Ch11.totalK] at hfl ⊢; omega)
+      (by rw [Acra.Lemmas.Ch11.pack_secK s h])
+
+/-- … and followed by anything of at least `k` bytes (for instance the next packet) the first item returned is the
+    object's bytes WITH the first `k` bytes of what follows glued on — never the byte string `pack` produced -/
+theorem datacksum_packet_swallows_next (s : Acra.Model.Ch11.State) (more : Bytes)
+    (h : Acra.Lemmas.Ch11.WFnK s ∨ Acra.Lemmas.Ch11.WFsK s) (hs : s.syncpattern = SYNC_WORD)
+    (hm : s.data_checksum_size ≤ more.length) :
+    ∃ b ps o, (Acra.Model.Ch11.pack s).2 = .ok b ∧
+      iterate (b ++ more) = .ok ((b ++ more.take s.data_checksum_size) :: ps, o) ∧
+      (0 < s.data_checksum_size → b ++ more.take s.data_checksum_size ≠ b) := by
+  have key : ∀ sec : Bytes, Acra.Lemmas.Ch11.totalK s sec.length + Spec.Ch11.fillLen (Acra.Lemmas.Ch11.totalK s sec.length) < 2 ^ 32 →
+      (Acra.Model.Ch11.pack s).2 = .ok (Acra.Lemmas.Ch11.bytesK s sec) →
+      ∃ b ps o, (Acra.Model.Ch11.pack s).2 = .ok b ∧
+        iterate (b ++ more) = .ok ((b ++ more.take s.data_checksum_size) :: ps, o) ∧
+        (0 < s.data_checksum_size → b ++ more.take s.data_checksum_size ≠ b) := by
+    intro sec hlt hp
+    obtain ⟨ps, o, hit⟩ := iterate_some _ _ _ (next_bytesK_more s sec more hs hm hlt)
+    refine ⟨_, ps, o, hp, hit, ?_⟩
+    intro hk heq
+    have := congrArg List.length heq
+    simp only [List.length_append, List.length_take] at this
+    omega
+  rcases h with h | h
+  · have hfl := Acra.Lemmas.Ch11.fillLen_lt (Acra.Lemmas.Ch11.totalK s 0)
+    have := h.2.2.2.2.2.2.2.2.2
+    exact key [] (by simp only [Acra.Lemmas.Ch11.totalK, List.length_nil] at hfl ⊢; omega)
+      (by rw [Acra.Lemmas.Ch11.pack_nosecK s h])
+  · have hl : (Spec.Ch11.secHeader s.ptptime.seconds s.ptptime.nanoseconds).length = 12 := by
+      simp [Spec.Ch11.secHeader]
+    have hfl := Acra.Lemmas.Ch11.fillLen_lt (Acra.Lemmas.Ch11.totalK s 12)
+    have := h.2.2.2.2.2.2.2.2.2.2.2
+    exact key _ (by rw [hl]; simp only [Acra.Lemmas.Ch11.totalK] at hfl ⊢; omega)
+      (by rw [Acra.Lemmas.Ch11.pack_secK s h])
+
+/-- joint witness of the hypotheses (k = 2, standard sync word), and the two failures evaluated on it: written alone the
+    26-byte packet is lost; written before an ordinary 28-byte packet `c` the reader returns 28 bytes (the packet plus
+    the sync word of `c`) and then, resynchronising inside `c`, nothing more -/
+example : (Acra.Lemmas.Ch11.WFnK { Acra.Model.Ch11.fresh with data_checksum_size := 2, payload := [1, 2] } ∨
+      Acra.Lemmas.Ch11.WFsK { Acra.Model.Ch11.fresh with data_checksum_size := 2, payload := [1, 2] }) ∧
+    ({ Acra.Model.Ch11.fresh with data_checksum_size := 2, payload := [1, 2] } : Acra.Model.Ch11.State).syncpattern = SYNC_WORD ∧
+    0 < ({ Acra.Model.Ch11.fresh with data_checksum_size := 2, payload := [1, 2] } : Acra.Model.Ch11.State).data_checksum_size :=
+  ⟨Or.inl (by simp [Acra.Lemmas.Ch11.WFnK, Acra.Model.Ch11.fresh, DEFAULT_SYNCPATTERN, DEFAULT_DATATYPEVERSION, TS_RTC]), rfl,
+   by decide⟩
+example : (iterate (Acra.Lemmas.Ch11.bytesK { Acra.Model.Ch11.fresh with data_checksum_size := 2, payload := [1, 2] } [])).toOption =
+    some ([], 28) := by decide +kernel
+example : ((iterate (Acra.Lemmas.Ch11.bytesK { Acra.Model.Ch11.fresh with data_checksum_size := 2, payload := [1, 2] } [] ++
+      Acra.Lemmas.Ch11.bytesK { Acra.Model.Ch11.fresh with payload := [3, 4, 5, 6] } [])).toOption.map
+        (fun r => r.1.map List.length)) = some [28] := by decide +kernel
 
 end Acra.Props.C12
